@@ -223,7 +223,8 @@ PROPS = {
         {
             "Alive knowledge never creates suspicion (a calm list stays calm under Alive updates, any RNG draw, any conflict outcome)": "theorem (full): alive_updates_keep_the_list_calm",
             "sender liveness learned from every header; Ping answered with its Ack; an acked round raises no suspicion; Announce answered with Feed": "theorem (full): sender_is_learned_from_header, ping_gets_its_ack, acked_round_raises_no_suspicion, announce_gets_a_feed",
-            "zero false suspicion over whole fault-free cluster runs (network + clocks)": "partial: composition of the lemmas above over a cluster is not a Lean theorem; explored by the discrete-event simulator on the real crate (state checked after every event)",
+            "zero false suspicion over whole fault-free cluster runs, given that every probe round is answered in time": "theorem (full, cluster level): C02S.calm_cluster_stays_calm — any number of fresh instances with pairwise different addresses; datagrams delivered late, repeatedly, to the wrong instance or never; timers in any order; announce/gossip/broadcast/add_broadcast/set_config at any time; any RNG draws; codec laws (proven for the four codec models): if every probe timer that fires finds its previous round answered (RoundAnswered), then at every moment every record of every instance is Alive and about a cluster identity, no suspicion timer is pending anywhere and every datagram on the wire carries only Alive claims and is not a TurnUndead; C02S.wire_carries_only_alive_claims (what a peer parses); C02S.calm_call_stays_calm (one call: suspicion arises only from a failed probe round or a Suspect/Down claim, departure or identity change); Proofs/CalmInv.lean (a walk over the calm paths of every function), Proofs/CalmNet.lean (CalmReach, CalmNet); worked example: announce + delivery",
+            "the premise itself (every probe round is answered within probe_rtt / probe_period under bounded latency)": "partial: depends on latencies and clocks; explored by the discrete-event simulator on the real crate (state checked after every event)",
             "full discovery within a linear number of probe periods": "partial and FALSE in general: holds in the simulator whenever every joiner announces to a settled member or to one common seed; fails when a joiner announces to a member whose own view is not settled yet (KNOWN FINDING F7, protocol limitation, not repaired)",
         },
         "search: discrete-event simulation of 2..6 (thorough: ..12) real instances, latencies below probe_rtt/4, three join schedules (settled random seed, one common seed with simultaneous joiners, rapid joins through unsettled seeds), fan-out 1..3, max_transmissions 1..10, periodic gossip/announce on or off, packet sizes from feeds-the-whole-cluster to 1400 and (safety only) too small; safety judged after every event, discovery after 3n+6 periods; distinct by parameter hash, non-trivial when n >= 3. " + RULE_HIST,
